@@ -12,6 +12,7 @@ import (
 	"github.com/bnb-chain/tss-lib/v2/ecdsa/keygen"
 
 	"verif/core"
+	"verif/ref"
 )
 
 // C10 — every honestly generated proof verifies, also after encoding.
@@ -558,6 +559,13 @@ func c12Run(c core.Case, env *core.Env) core.Result {
 				mut("<-prev", new(big.Int).Set(in.comps[i-1]))
 			}
 			mut("=0", big.NewInt(0))
+			// the negation of a scalar (order of either curve) or of a coordinate (either field prime): the negated
+			// response / the mirrored point is a different group element with the same x coordinate or the same square
+			for mn, M := range map[string]*big.Int{"secp256k1 order": ref.SecpN, "secp256k1 field": ref.SecpP, "ed25519 order": ref.EdL, "ed25519 field": ref.EdP} {
+				if in.comps[i].Sign() > 0 && in.comps[i].Cmp(M) < 0 {
+					mut("negated mod "+mn, new(big.Int).Sub(M, in.comps[i]))
+				}
+			}
 			r.Count("component_indices", 1)
 		}
 	case "shifts":
